@@ -220,8 +220,8 @@ func (e *Engine) isMatchBoundedBacktracker(haystack []byte) bool {
 		if !e.asciiBoundedBacktracker.CanHandle(len(haystack)) {
 			return e.pikeIsMatch(haystack)
 		}
-		// Use ASCII backtracker directly (no pooled state needed - it's independent)
-		return e.asciiBoundedBacktracker.IsMatch(haystack)
+		// The ASCII backtracker runs on a pooled per-goroutine state as well
+		return e.asciiBTIsMatch(haystack)
 	}
 
 	if !e.boundedBacktracker.CanHandle(len(haystack)) {
